@@ -1,0 +1,208 @@
+//go:build verif
+
+// Contracts for the relayer-group management (property C16), comment-only.
+package keeper
+
+// helpers: a voter record looked up in a raw map value (to read the ENTRY map at a key of the FINAL state)
+//@ smt (define-fun vstatus ((m (Array Bytes T_relayer_types_Voter)) (a Bytes)) Int (T_relayer_types_Voter.Status (select m a)))
+//@ smt (define-fun vhas ((d (Array Bytes Bool)) (a Bytes)) Bool (select d a))
+
+// Helpers over lists. Quantified list facts are stated over the ABSOLUTE array position p (element k of a slice s
+// is arr(s)[off(s)+k]) with the element access as instantiation pattern: patterns that contain `off + k` are not
+// matched reliably by the solvers.
+//@ smt (define-fun addAddrAt ((adds Slc_Opt_T_types_goattypes_AddVoterRequest) (p Int)) Bytes
+//@       (addrEncode (bsub (T_types_goattypes_AddVoterRequest.Voter (val_Opt_T_types_goattypes_AddVoterRequest (select (arr_Slc_Opt_T_types_goattypes_AddVoterRequest adds) p))) 0 20)))
+// no nil request pointers
+//@ smt (define-fun addsNonNil ((adds Slc_Opt_T_types_goattypes_AddVoterRequest)) Bool
+//@       (forall ((p Int)) (! (=> (and (<= (off_Slc_Opt_T_types_goattypes_AddVoterRequest adds) p) (< p (+ (off_Slc_Opt_T_types_goattypes_AddVoterRequest adds) (len_Slc_Opt_T_types_goattypes_AddVoterRequest adds))))
+//@            (not ((_ is none_Opt_T_types_goattypes_AddVoterRequest) (select (arr_Slc_Opt_T_types_goattypes_AddVoterRequest adds) p))))
+//@          :pattern ((select (arr_Slc_Opt_T_types_goattypes_AddVoterRequest adds) p)))))
+//@ smt (define-fun removesNonNil ((rms Slc_Opt_T_types_goattypes_RemoveVoterRequest)) Bool
+//@       (forall ((p Int)) (! (=> (and (<= (off_Slc_Opt_T_types_goattypes_RemoveVoterRequest rms) p) (< p (+ (off_Slc_Opt_T_types_goattypes_RemoveVoterRequest rms) (len_Slc_Opt_T_types_goattypes_RemoveVoterRequest rms))))
+//@            (not ((_ is none_Opt_T_types_goattypes_RemoveVoterRequest) (select (arr_Slc_Opt_T_types_goattypes_RemoveVoterRequest rms) p))))
+//@          :pattern ((select (arr_Slc_Opt_T_types_goattypes_RemoveVoterRequest rms) p)))))
+// the first n requested addresses have a record
+//@ smt (define-fun addsPresent ((dom (Array Bytes Bool)) (adds Slc_Opt_T_types_goattypes_AddVoterRequest) (n Int)) Bool
+//@       (forall ((p Int)) (! (=> (and (<= (off_Slc_Opt_T_types_goattypes_AddVoterRequest adds) p) (< p (+ (off_Slc_Opt_T_types_goattypes_AddVoterRequest adds) n))) (select dom (addAddrAt adds p)))
+//@          :pattern ((select (arr_Slc_Opt_T_types_goattypes_AddVoterRequest adds) p)))))
+// q extends q0 by appending (same backing offset, q0 is a prefix of q)
+//@ smt (define-fun qExtends ((q Slc_Bytes) (q0 Slc_Bytes)) Bool
+//@       (and (= (off_Slc_Bytes q) (off_Slc_Bytes q0)) (>= (len_Slc_Bytes q) (len_Slc_Bytes q0))
+//@            (forall ((p Int)) (! (=> (and (<= (off_Slc_Bytes q0) p) (< p (+ (off_Slc_Bytes q0) (len_Slc_Bytes q0)))) (= (select (arr_Slc_Bytes q) p) (select (arr_Slc_Bytes q0) p)))
+//@               :pattern ((select (arr_Slc_Bytes q) p))))))
+// every entry of q from position n0 on: has a record with status OFF_BOARDING (3) in (d,v) and had an ACTIVATED (4) record in (d0,v0)
+//@ smt (define-fun qRemoved ((q Slc_Bytes) (n0 Int) (d (Array Bytes Bool)) (v (Array Bytes T_relayer_types_Voter)) (d0 (Array Bytes Bool)) (v0 (Array Bytes T_relayer_types_Voter))) Bool
+//@       (forall ((p Int)) (! (=> (and (<= (+ (off_Slc_Bytes q) n0) p) (< p (+ (off_Slc_Bytes q) (len_Slc_Bytes q))))
+//@            (and (select d (select (arr_Slc_Bytes q) p)) (= (T_relayer_types_Voter.Status (select v (select (arr_Slc_Bytes q) p))) 3)
+//@                 (select d0 (select (arr_Slc_Bytes q) p)) (= (T_relayer_types_Voter.Status (select v0 (select (arr_Slc_Bytes q) p))) 4)))
+//@          :pattern ((select (arr_Slc_Bytes q) p)))))
+// every entry of q before position n has a record in (d,v) with status st
+//@ smt (define-fun qStatusBelow ((q Slc_Bytes) (n Int) (d (Array Bytes Bool)) (v (Array Bytes T_relayer_types_Voter)) (st Int)) Bool
+//@       (forall ((p Int)) (! (=> (and (<= (off_Slc_Bytes q) p) (< p (+ (off_Slc_Bytes q) n))) (and (select d (select (arr_Slc_Bytes q) p)) (= (T_relayer_types_Voter.Status (select v (select (arr_Slc_Bytes q) p))) st)))
+//@          :pattern ((select (arr_Slc_Bytes q) p)))))
+// the entries of q from position lo on are pairwise distinct
+//@ smt (define-fun qDistinctFrom ((q Slc_Bytes) (lo Int)) Bool
+//@       (forall ((p Int) (r Int)) (! (=> (and (<= (+ (off_Slc_Bytes q) lo) r) (< r p) (< p (+ (off_Slc_Bytes q) (len_Slc_Bytes q)))) (not (= (select (arr_Slc_Bytes q) p) (select (arr_Slc_Bytes q) r))))
+//@          :pattern ((select (arr_Slc_Bytes q) p) (select (arr_Slc_Bytes q) r)))))
+
+// ---- 1. add / remove requests from the execution layer ---------------------------------------------------
+//
+// recs_kept:   a record that existed at entry still exists, its Address/VoteKey/Height are untouched and its status is
+//              either untouched or went ACTIVATED -> OFF_BOARDING (adds never touch an existing record; a removal is
+//              applied only to an ACTIVATED voter).
+// recs_new:    a record that did not exist at entry is PENDING, created at the current height, for an address of req.Adds.
+// adds_done:   on success every requested address has a record.
+// queue_*:     the OffBoarding queue only grows by appending, OnBoarding is untouched; every appended address was
+//              ACTIVATED at entry and is OFF_BOARDING afterwards; appended entries are pairwise distinct.
+// guard:       removals that would empty the group are ignored: either nothing was appended or the queue is still
+//              no longer than the voter list (at least one of the len(Voters)+1 members stays).
+// ri_len:      hence len(OffBoarding) <= len(Voters) is preserved.
+
+//@ func (Keeper).ProcessRelayerRequest
+//@ property C16 C09
+//@ let ACT = types.VOTER_STATUS_ACTIVATED
+//@ let OFF = types.VOTER_STATUS_OFF_BOARDING
+//@ let PEND = types.VOTER_STATUS_PENDING
+//@ let oldQ = old(st.relayer.Queue.OffBoarding)
+//@ let oldN = len(old(st.relayer.Queue.OffBoarding))
+//@ let newQ = st.relayer.Queue.OffBoarding
+//@ let nVoters = len(st.relayer.Relayer.Voters)
+//@ let oldDom = old(mapdom(st.relayer.Voters))
+//@ let oldVal = old(mapval(st.relayer.Voters))
+//@ requires wf_adds: addsNonNil(req.Adds)
+//@ requires wf_removes: removesNonNil(req.Removes)
+//@ let SIZES = (len(old(st.relayer.Relayer.Voters)) < 4294967296 && oldN < 4294967296)
+//@ ensures recs_kept: forallb(a, old(has(st.relayer.Voters, a)) ==> has(st.relayer.Voters, a)
+//@           && st.relayer.Voters[a].Address == old(st.relayer.Voters[a].Address) && st.relayer.Voters[a].VoteKey == old(st.relayer.Voters[a].VoteKey) && st.relayer.Voters[a].Height == old(st.relayer.Voters[a].Height)
+//@           && (st.relayer.Voters[a].Status == old(st.relayer.Voters[a].Status) || (old(st.relayer.Voters[a].Status) == ACT && st.relayer.Voters[a].Status == OFF)))
+//@ ensures recs_new: forallb(a, !old(has(st.relayer.Voters, a)) && has(st.relayer.Voters, a) ==> st.relayer.Voters[a].Status == PEND && (blockheight() >= 0 ==> st.relayer.Voters[a].Height == blockheight()))
+//@ ensures adds_done: err == nil ==> addsPresent(mapdom(st.relayer.Voters), req.Adds, len(req.Adds))
+//@ ensures no_removes: len(req.Removes) == 0 ==> unchanged(st.relayer.Queue) && forallb(a, old(has(st.relayer.Voters, a)) ==> st.relayer.Voters[a] == old(st.relayer.Voters[a]))
+//@ ensures queue_append_only: qExtends(newQ, oldQ) && st.relayer.Queue.OnBoarding == old(st.relayer.Queue.OnBoarding)
+//@ ensures queue_append_only_idx: len(newQ) >= oldN && forall(j, 0, oldN, newQ[j] == oldQ[j])
+//@ ensures queue_appended: err == nil ==> qRemoved(newQ, oldN, mapdom(st.relayer.Voters), mapval(st.relayer.Voters), oldDom, oldVal)
+//@ ensures queue_appended_idx: err == nil ==> forall(j, oldN, len(newQ), has(st.relayer.Voters, newQ[j]) && st.relayer.Voters[newQ[j]].Status == OFF && vhas(oldDom, newQ[j]) && vstatus(oldVal, newQ[j]) == ACT)
+//@ ensures appended_distinct: err == nil ==> qDistinctFrom(newQ, oldN)
+//@ ensures guard: SIZES ==> len(newQ) == oldN || len(newQ) <= nVoters
+//@ ensures ri_len: SIZES && oldN <= nVoters ==> len(newQ) <= nVoters
+//@ ensures ri_distinct: err == nil && qStatusBelow(oldQ, oldN, oldDom, oldVal, OFF) && qDistinctFrom(oldQ, 0) ==> qDistinctFrom(newQ, 0)
+//@ ensures ri_status: err == nil && qStatusBelow(oldQ, oldN, oldDom, oldVal, OFF) ==> qStatusBelow(newQ, len(newQ), mapdom(st.relayer.Voters), mapval(st.relayer.Voters), OFF)
+//@ modifies st.relayer.Voters, st.relayer.Queue
+//@ nopanic
+//@ loop 0 invariant idx: -1 <= rangeindex && rangeindex < len(req.Adds)
+//@ loop 0 invariant kept: forallb(a, old(has(st.relayer.Voters, a)) ==> has(st.relayer.Voters, a) && st.relayer.Voters[a] == old(st.relayer.Voters[a]))
+//@ loop 0 invariant fresh: forallb(a, !old(has(st.relayer.Voters, a)) && has(st.relayer.Voters, a) ==> st.relayer.Voters[a].Status == PEND && (blockheight() >= 0 ==> st.relayer.Voters[a].Height == blockheight()))
+//@ loop 0 invariant done: addsPresent(mapdom(st.relayer.Voters), req.Adds, rangeindex + 1)
+//@ loop 1 invariant idx: -1 <= rangeindex && rangeindex < len(req.Removes)
+//@ loop 1 invariant count: SIZES ==> active == len(relayer.Voters) + 1 - len(queue.OffBoarding)
+//@ loop 1 invariant alive: SIZES && len(queue.OffBoarding) > oldN ==> active >= 1
+//@ loop 1 invariant grows: qExtends(queue.OffBoarding, oldQ) && queue.OnBoarding == old(st.relayer.Queue.OnBoarding)
+//@ loop 1 invariant appended: qRemoved(queue.OffBoarding, oldN, mapdom(st.relayer.Voters), mapval(st.relayer.Voters), oldDom, oldVal)
+//@ loop 1 invariant distinct: qDistinctFrom(queue.OffBoarding, oldN)
+//@ loop 1 invariant kept: forallb(a, old(has(st.relayer.Voters, a)) ==> has(st.relayer.Voters, a)
+//@           && st.relayer.Voters[a].Address == old(st.relayer.Voters[a].Address) && st.relayer.Voters[a].VoteKey == old(st.relayer.Voters[a].VoteKey) && st.relayer.Voters[a].Height == old(st.relayer.Voters[a].Height)
+//@           && (st.relayer.Voters[a].Status == old(st.relayer.Voters[a].Status) || (old(st.relayer.Voters[a].Status) == ACT && st.relayer.Voters[a].Status == OFF)))
+//@ loop 1 invariant fresh: forallb(a, !old(has(st.relayer.Voters, a)) && has(st.relayer.Voters, a) ==> st.relayer.Voters[a].Status == PEND && (blockheight() >= 0 ==> st.relayer.Voters[a].Height == blockheight()))
+//@ loop 1 invariant done: addsPresent(mapdom(st.relayer.Voters), req.Adds, len(req.Adds))
+
+// ---- 2. voter registration ------------------------------------------------------------------------------------
+//
+// Trusted cryptographic predicates: blsVerify (pkg/crypto, contract of Verify), ecdsaVerify (go-ethereum
+// crypto.VerifySignature, summary in govc/summ_rel.go), accountExists (x/auth HasAccount, summary).
+//@ smt (declare-fun ecdsaVerify (Bytes Bytes Bytes) Bool)
+//@ smt (declare-fun accountExists (Bytes) Bool)
+
+// A    = the address derived from the transaction key (bech32 of hash160(VoterTxKey))
+// DOC  = the registration sign-doc: VoteSignDoc("Relayer/NewVoter", chain id, proposer, 0, current epoch,
+//        le64(height of the pending record) ++ hash160(tx key) ++ stored vote-key hash)
+//@ func (msgServer).NewVoter
+//@ property C16
+//@ let ADDR = hash160(req.VoterTxKey)
+//@ let A = addrEncode(hash160(req.VoterTxKey))
+//@ let REC = old(st.relayer.Voters[addrEncode(hash160(req.VoterTxKey))])
+//@ let DOC = votesigndoc(chainid(), 0, old(st.relayer.Relayer.Epoch), "Relayer/NewVoter", req.Proposer, bcat(bcat(le64(REC.Height), ADDR), REC.VoteKey))
+//@ let oldOn = old(st.relayer.Queue.OnBoarding)
+//@ let oldOff = old(st.relayer.Queue.OffBoarding)
+//@ requires req != nil
+//@ requires queue_bound: len(st.relayer.Queue.OnBoarding) < 4294967296 && len(st.relayer.Queue.OffBoarding) < 4294967296
+//@ ensures by_proposer: err == nil ==> req.Proposer == old(st.relayer.Relayer.Proposer)
+//@ ensures sizes: err == nil ==> len(req.VoterBlsKey) == goatcrypto.PubkeyLength && len(req.VoterBlsKeyProof) == goatcrypto.SignatureLength && len(req.VoterTxKey) == 33 && len(req.VoterTxKeyProof) == goatcrypto.Secp256k1SigLength
+//@ ensures was_pending: err == nil ==> old(has(st.relayer.Voters, A)) && REC.Status == types.VOTER_STATUS_PENDING
+//@ ensures key_hash: err == nil ==> sha256(req.VoterBlsKey) == REC.VoteKey
+//@ ensures pop_tx_key: err == nil ==> ecdsaVerify(req.VoterTxKey, DOC, req.VoterTxKeyProof)
+//@ ensures pop_vote_key: err == nil ==> blsVerify(req.VoterBlsKey, DOC, req.VoterBlsKeyProof)
+// (The property does not demand that a verified registration joins: a registration whose derived address
+// already owns an account is deliberately discarded by the code — it is marked OFF_BOARDING and queued for
+// removal. The two conditional clauses below state both outcomes; an unconditional 'becomes ON_BOARDING'
+// clause would ask more than the property text and was withdrawn.)
+//@ ensures on_boarding_new_account: err == nil && !accountExists(ADDR) ==> has(st.relayer.Voters, A) && st.relayer.Voters[A].Status == types.VOTER_STATUS_ON_BOARDING && st.relayer.Voters[A].VoteKey == req.VoterBlsKey
+//@           && st.relayer.Voters[A].Address == REC.Address && st.relayer.Voters[A].Height == REC.Height
+//@           && len(st.relayer.Queue.OnBoarding) == len(oldOn) + 1 && st.relayer.Queue.OnBoarding[len(oldOn)] == A && qExtends(st.relayer.Queue.OnBoarding, oldOn) && st.relayer.Queue.OffBoarding == oldOff
+//@ ensures existing_account_is_discarded: err == nil && accountExists(ADDR) ==> has(st.relayer.Voters, A) && st.relayer.Voters[A].Status == types.VOTER_STATUS_OFF_BOARDING && st.relayer.Voters[A].VoteKey == req.VoterBlsKey
+//@           && len(st.relayer.Queue.OffBoarding) == len(oldOff) + 1 && st.relayer.Queue.OffBoarding[len(oldOff)] == A && qExtends(st.relayer.Queue.OffBoarding, oldOff) && st.relayer.Queue.OnBoarding == oldOn
+//@ ensures not_yet_a_member: err == nil ==> st.relayer.Relayer.Voters == old(st.relayer.Relayer.Voters) && st.relayer.Relayer.Proposer == old(st.relayer.Relayer.Proposer) && st.relayer.Relayer.Epoch == old(st.relayer.Relayer.Epoch)
+//@           && st.relayer.Relayer.LastElected == old(st.relayer.Relayer.LastElected) && st.relayer.Relayer.ProposerAccepted
+//@ ensures others_untouched: forallb(a, a != A ==> has(st.relayer.Voters, a) == old(has(st.relayer.Voters, a)) && st.relayer.Voters[a] == old(st.relayer.Voters[a]))
+//@ ensures reject_keeps_voters: err != nil ==> unchanged(st.relayer.Voters) && unchanged(st.relayer.Queue)
+//@ modifies st.relayer.Relayer, st.relayer.Voters, st.relayer.Queue
+//@ nopanic
+
+// The proposer confirms its election in time.
+//@ func (msgServer).AcceptProposer
+//@ property C16
+//@ requires req != nil
+//@ ensures accepted: err == nil ==> req.Proposer == old(st.relayer.Relayer.Proposer) && req.Epoch == old(st.relayer.Relayer.Epoch) && !old(st.relayer.Relayer.ProposerAccepted)
+//@           && blocktime() - old(st.relayer.Relayer.LastElected) <= st.relayer.Params.AcceptProposerTimeout
+//@ ensures only_flag: err == nil ==> st.relayer.Relayer.ProposerAccepted && st.relayer.Relayer.Proposer == old(st.relayer.Relayer.Proposer) && st.relayer.Relayer.Epoch == old(st.relayer.Relayer.Epoch)
+//@           && st.relayer.Relayer.Voters == old(st.relayer.Relayer.Voters) && st.relayer.Relayer.LastElected == old(st.relayer.Relayer.LastElected)
+//@ ensures reject_changes_nothing: err != nil ==> unchanged(st.relayer.Relayer)
+//@ modifies st.relayer.Relayer
+//@ nopanic
+
+// ---- 3. elections -----------------------------------------------------------------------------------------------
+
+// a does not occur among the first n entries of q
+//@ smt (define-fun qLacks ((q Slc_Bytes) (n Int) (a Bytes)) Bool
+//@       (forall ((p Int)) (! (=> (and (<= (off_Slc_Bytes q) p) (< p (+ (off_Slc_Bytes q) n))) (not (= (select (arr_Slc_Bytes q) p) a))) :pattern ((select (arr_Slc_Bytes q) p)))))
+
+// none of the first n entries of q has a record in d
+//@ smt (define-fun qAbsent ((q Slc_Bytes) (n Int) (d (Array Bytes Bool))) Bool
+//@       (forall ((p Int)) (! (=> (and (<= (off_Slc_Bytes q) p) (< p (+ (off_Slc_Bytes q) n))) (not (select d (select (arr_Slc_Bytes q) p)))) :pattern ((select (arr_Slc_Bytes q) p)))))
+
+// Representation invariant of the group (RI), the part EndBlocker relies on for never failing:
+//   STORED    the four singletons exist (genesis writes them)
+//   ON_RECS   every OnBoarding entry has a record with status ON_BOARDING
+//   OFF_RECS  every OffBoarding entry has a record with status OFF_BOARDING (hence the two queues are disjoint)
+//   SURVIVOR  if the proposer is being removed, some voter is not: this is what `len(OffBoarding) <= len(Voters)` gives
+//             for a duplicate-free queue of members and a duplicate-free member list (pigeonhole; paper argument, see NOTES.md)
+//@ func (Keeper).EndBlocker
+//@ property C16
+//@ let ON = types.VOTER_STATUS_ON_BOARDING
+//@ let OFF = types.VOTER_STATUS_OFF_BOARDING
+//@ let ACT = types.VOTER_STATUS_ACTIVATED
+//@ let oldOn = old(st.relayer.Queue.OnBoarding)
+//@ let oldOff = old(st.relayer.Queue.OffBoarding)
+//@ let oldV = old(st.relayer.Relayer.Voters)
+//@ let oldDom = old(mapdom(st.relayer.Voters))
+//@ let oldVal = old(mapval(st.relayer.Voters))
+//@ let ELAPSED = blocktime() - old(st.relayer.Relayer.LastElected)
+//@ let DUE = (ELAPSED >= st.relayer.Params.ElectingPeriod || (!old(st.relayer.Relayer.ProposerAccepted) && st.relayer.Params.AcceptProposerTimeout != 0 && ELAPSED >= st.relayer.Params.AcceptProposerTimeout))
+//@ let STORED = old(has(st.relayer.Relayer) && has(st.relayer.Params) && has(st.relayer.Queue) && has(st.relayer.Randao))
+//@ let ON_RECS = qStatusBelow(oldOn, len(oldOn), oldDom, oldVal, ON)
+//@ let OFF_RECS = qStatusBelow(oldOff, len(oldOff), oldDom, oldVal, OFF)
+//@ let SURVIVOR = (!qLacks(oldOff, len(oldOff), old(st.relayer.Relayer.Proposer)) ==> exists(w, 0, len(oldV), qLacks(oldOff, len(oldOff), oldV[w])))
+//@ let BOUNDS = (old(st.relayer.Relayer.Epoch) < 18446744073709551615 && len(oldV) < 4294967296 && len(oldOn) < 4294967296 && len(oldOff) < 4294967296)
+//@ ensures not_due: err == nil && !DUE ==> unchanged(st.relayer.Relayer) && unchanged(st.relayer.Queue) && unchanged(st.relayer.Voters)
+//@ ensures due_epoch: err == nil && DUE && BOUNDS ==> st.relayer.Relayer.Epoch == old(st.relayer.Relayer.Epoch) + 1 && st.relayer.Relayer.LastElected == blocktime()
+//@ ensures due_queues_emptied: err == nil && DUE ==> len(st.relayer.Queue.OnBoarding) == 0 && len(st.relayer.Queue.OffBoarding) == 0
+//@ ensures on_boarded_activated: err == nil && DUE && ON_RECS && OFF_RECS ==> qStatusBelow(oldOn, len(oldOn), mapdom(st.relayer.Voters), mapval(st.relayer.Voters), ACT)
+//@ ensures off_boarded_removed: err == nil && DUE ==> qAbsent(oldOff, len(oldOff), mapdom(st.relayer.Voters))
+//@ ensures never_fails: STORED && ON_RECS && OFF_RECS && SURVIVOR && BOUNDS ==> err == nil
+//@ modifies st.relayer.Relayer, st.relayer.Queue, st.relayer.Voters
+//@ loop 0 invariant idx: -1 <= rangeindex && rangeindex < len(queue.OnBoarding)
+//@ loop 0 invariant dom_grows: forallb(a, old(has(st.relayer.Voters, a)) ==> has(st.relayer.Voters, a))
+//@ loop 0 invariant act_done: ON_RECS ==> qStatusBelow(queue.OnBoarding, rangeindex + 1, mapdom(st.relayer.Voters), mapval(st.relayer.Voters), ACT)
+//@ loop 1 invariant idx: -1 <= rangeindex && rangeindex < len(queue.OffBoarding)
+//@ loop 1 invariant on_act: ON_RECS && OFF_RECS && len(queue.OnBoarding) > 0 ==> qStatusBelow(queue.OnBoarding, len(queue.OnBoarding), mapdom(st.relayer.Voters), mapval(st.relayer.Voters), ACT)
+//@ loop 1 invariant removed: qAbsent(queue.OffBoarding, rangeindex + 1, mapdom(st.relayer.Voters))
+//@ loop 1 invariant set_sub: forallb(a, qLacks(queue.OffBoarding, len(queue.OffBoarding), a) ==> !has(*set, a))
